@@ -57,6 +57,7 @@ def check(prog: Program, run: Run) -> None:
     _merge(prog, run)
     _lookup(prog, run)
     _defaults(prog, run)
+    _subparam_order(prog, run)
     _accessors(prog, run)
     common.g1_literal_attrs(prog, run, "C15.G1", ["odxtools/diaglayers/hierarchyelement.py"])
 
@@ -73,15 +74,14 @@ def _merge(prog: Program, run: Run) -> None:
     if len(pl) != 1:
         raise AnalysisError("comparam merge: parent loop not found")
     pl = pl[0]
-    kw = {k.arg: ast.unparse(k.value) for k in pl.iter.keywords}
-    pos = [ast.unparse(a) for a in pl.iter.args]
-    if kw.get("reverse", "False") == "False" and pos[:1] in ([], ["False"]):
+    if common.parents_descending(prog, pl.iter) is False:
         run.ok(R, C, "parents merged from low to high priority (closer layers override)",
                f"{f.module.rel}:{pl.lineno}")
     else:
         run.violation(R, C, "parents-descending",
-                      "the parents are merged from high to low priority, so the lowest-priority "
-                      "parent's definition wins", f"{f.module.rel}:{pl.lineno}", stmt_key(pl))
+                      "the parents are not merged from low to high priority (evaluated through "
+                      "the helper's sorted(..., reverse=...) and its defaults), so the "
+                      "lowest-priority parent's definition wins", f"{f.module.rel}:{pl.lineno}", stmt_key(pl))
     stores = [x for x in walk_no_nested(fn) if isinstance(x, ast.Assign) and isinstance(
         x.targets[0], ast.Subscript) and isinstance(x.targets[0].value, ast.Name)]
     if len(stores) < 2:
@@ -354,6 +354,33 @@ def _defaults(prog: Program, run: Run) -> None:
                       "<SIMPLE-VALUE/>, so an omitted sub-value is returned as that marker "
                       "instead of the specification's default", f"{gs.module.rel}:{t.lineno}",
                       stmt_key(t))
+
+
+def _subparam_order(prog: Program, run: Run) -> None:
+    """The sub-value index of get_subvalue() is the position of the sub-parameter in the
+    specification: the parser must collect COMPARAM and COMPLEX-COMPARAM children in ONE pass
+    in document order, not per tag."""
+    R = "C15.R3"
+    f = prog.func("ComplexComparam.from_et")
+    C = "ComplexComparam.from_et"
+    per_tag = [x for x in walk_no_nested(f.node) if isinstance(x, ast.Call) and isinstance(
+        x.func, ast.Attribute) and x.func.attr in ("iterfind", "findall", "iter") and x.args and
+        isinstance(x.args[0], ast.Constant) and str(x.args[0].value).split("/")[-1] in (
+            "COMPARAM", "COMPLEX-COMPARAM")]
+    tag_tests = [x for x in walk_no_nested(f.node) if isinstance(x, ast.Compare) and isinstance(
+        x.left, ast.Attribute) and x.left.attr == "tag" and all(
+            k in ast.unparse(x) for k in ("'COMPARAM'", "'COMPLEX-COMPARAM'"))]
+    if per_tag:
+        run.violation(R, C, "subparams-per-tag",
+                      f"`{ast.unparse(per_tag[0])}` collects the sub-parameters tag by tag: a "
+                      "nested COMPLEX-COMPARAM that precedes a simple COMPARAM moves behind it, "
+                      "so get_subvalue() and the complex default value read the wrong slot",
+                      f"{f.module.rel}:{per_tag[0].lineno}")
+    elif tag_tests:
+        run.ok(R, C, "sub-parameters are collected in one pass over the children (document "
+               "order), both tags accepted by the same test", f.loc)
+    else:
+        raise AnalysisError("ComplexComparam.from_et: sub-parameter collection not recognised")
 
 
 def _accessors(prog: Program, run: Run) -> None:
